@@ -1,5 +1,211 @@
+// Engine T: the real Theory / TSolverHandler / THandler obtained through the real preprocessing + CNF pipeline;
+// the simulator replaces the SAT engine and issues assert / check / backtrack / deduce operations on a trail it owns.
+#include "apiload.h"
 #include "engines.h"
+#include "monitors.h"
 #include "rt_core.h"
+
+using namespace opensmt;
+
 namespace osim {
-int runEngineT(Json const &) { logRaw("{\"ev\":\"harness-error\",\"what\":\"engine T not built\"}"); return 9; }
+
+int runEngineT(Json const & plan) {
+    static Task task;
+    task.id = 0;
+    setCurrentTask(&task);
+    setTickBudget((uint64_t)plan["budget_ticks"].asInt(200000000));
+    MonitorConfig mc;
+    mc.tclauses = plan["monitors"]["tclauses"].asBool();
+    mc.farkas = plan["monitors"]["farkas"].asBool();
+    monitorsInstall(mc, plan["unusual"]);
+    logRaw("{\"ev\":\"run-begin\",\"engine\":\"T\"}");
+
+    Instance inst;
+    setTickWatch(true);
+    try {
+        inst.build(plan);
+    } catch (std::exception const & e) {
+        setTickWatch(false);
+        logRaw(std::string("{\"ev\":\"build-error\",\"what\":") + jsonEscape(e.what()) + "}");
+        return 0;
+    }
+    MainSolver & ms = *inst.solver;
+    try {
+        sstat pre = ms.simplifyFormulas();
+        if (pre == s_False) {
+            setTickWatch(false);
+            logRaw("{\"ev\":\"t-trivial\",\"why\":\"unsat in preprocessing\"}");
+            return 0;
+        }
+        ms.getSMTSolver().declareVarsToTheories();
+    } catch (std::exception const & e) {
+        setTickWatch(false);
+        logRaw(std::string("{\"ev\":\"t-trivial\",\"why\":") + jsonEscape(std::string("exception while declaring atoms: ") + e.what()) + "}");
+        return 0;
+    }
+    setTickWatch(false);
+    THandler & th = ms.getTHandler();
+    Logic & logic = ms.getLogic();
+
+    // atom pool: every SAT variable declared to the theory solvers
+    std::vector<Var> atoms;
+    int nv = ms.getSMTSolver().nVars();
+    for (Var v = 2; v < nv; ++v) {
+        if (!th.isDeclared(v)) continue;
+        atoms.push_back(v);
+    }
+    {
+        std::string rec = "{\"ev\":\"t-atoms\",\"ctx\":" + std::to_string(logicCtx(logic)) + ",\"atoms\":[";
+        bool first = true;
+        for (Var v : atoms) {
+            bool tl = false;
+            std::string t = printTerm(logic, th.varToTerm(v).x, tl);
+            if (!first) rec += ",";
+            first = false;
+            rec += jsonEscape(tl ? "" : t);
+        }
+        rec += "]}";
+        logRaw(rec);
+    }
+    if (atoms.empty()) {
+        logRaw("{\"ev\":\"t-trivial\",\"why\":\"no theory atom\"}");
+        return 0;
+    }
+
+    vec<Lit> trail;          // what the SAT engine would hold
+    std::vector<int> atomOf; // index into atoms per trail position
+    std::vector<char> onTrail(atoms.size(), 0);
+    vec<VarData> vardata;
+    vardata.growTo(nv);
+    for (int i = 0; i < nv; ++i) vardata[i] = VarData{CRef_Undef, 0};
+    std::vector<int> atomIndexOfVar(nv, -1);
+    for (size_t i = 0; i < atoms.size(); ++i) atomIndexOfVar[atoms[i]] = (int)i;
+
+    auto trailJson = [&]() {
+        std::string s = "[";
+        for (int i = 0; i < trail.size(); ++i) {
+            if (i) s += ",";
+            s += std::to_string(sign(trail[i]) ? -(atomOf[i] + 1) : (atomOf[i] + 1));
+        }
+        return s + "]";
+    };
+    auto popTo = [&](int size) {
+        while (trail.size() > size) {
+            onTrail[atomOf.back()] = 0;
+            atomOf.pop_back();
+            trail.pop();
+        }
+        setTickWatch(true);
+        th.backtrack(trail.size());
+        setTickWatch(false);
+    };
+    // After an UNSAT verdict the SAT engine asks for the conflict and backjumps below its highest literal.
+    auto handleUnsat = [&](char const * op, int step) {
+        vec<Lit> conflict;
+        int maxLevel = 0;
+        for (int i = 0; i < trail.size(); ++i) vardata[var(trail[i])].level = i + 1;
+        setTickWatch(true);
+        th.getConflict(conflict, vardata, maxLevel);
+        setTickWatch(false);
+        std::string rec = std::string("{\"ev\":\"t-step\",\"i\":") + std::to_string(step) + ",\"op\":\"" + op + "\",\"res\":\"UNSAT\",\"trail\":" + trailJson() + ",\"conflict\":[";
+        bool bad = false;
+        int highest = -1;
+        for (int i = 0; i < conflict.size(); ++i) {
+            Lit l = conflict[i];
+            int ai = var(l) < nv ? atomIndexOfVar[var(l)] : -1;
+            if (i) rec += ",";
+            rec += std::to_string(ai < 0 ? 0 : (sign(l) ? -(ai + 1) : (ai + 1)));
+            // every conflict literal must be the negation of a literal on the trail
+            bool found = false;
+            for (int k = 0; k < trail.size(); ++k) {
+                if (trail[k] == ~l) { found = true; if (k > highest) highest = k; }
+            }
+            if (!found) bad = true;
+        }
+        rec += std::string("],\"conflict_off_trail\":") + (bad ? "true" : "false") + "}";
+        logRaw(rec);
+        if (highest < 0) highest = trail.size() - 1;
+        popTo(highest);
+    };
+
+    Json const & ops = plan["ops"];
+    int step = 0;
+    try {
+    for (auto const & op : ops.arr) {
+        ++step;
+        std::string kind = op[0].asStr();
+        if (kind == "assert") {
+            // choose an atom not on the trail, starting from the requested index
+            size_t want = (size_t)op[1].asInt() % atoms.size();
+            size_t k = want;
+            bool found = false;
+            for (size_t t = 0; t < atoms.size(); ++t, k = (k + 1) % atoms.size()) {
+                if (!onTrail[k]) { found = true; break; }
+            }
+            if (!found) continue;
+            bool neg = op[2].asBool();
+            trail.push(mkLit(atoms[k], neg));
+            atomOf.push_back((int)k);
+            onTrail[k] = 1;
+            setTickWatch(true);
+            bool ok = th.assertLits(trail);
+            setTickWatch(false);
+            if (!ok) {
+                handleUnsat("assert", step);
+            } else {
+                logRaw("{\"ev\":\"t-step\",\"i\":" + std::to_string(step) + ",\"op\":\"assert\",\"res\":\"OK\",\"trail\":" + trailJson() + "}");
+            }
+        } else if (kind == "check") {
+            bool complete = op[1].asBool();
+            setTickWatch(true);
+            TRes r = th.check(complete);
+            setTickWatch(false);
+            if (r == TRes::UNSAT) {
+                handleUnsat(complete ? "check-complete" : "check", step);
+                continue;
+            }
+            size_t nsplits = 0;
+            if (r == TRes::SAT && complete) {
+                setTickWatch(true);
+                auto splits = th.getNewSplits();
+                setTickWatch(false);
+                nsplits = splits.size();
+            }
+            // deductions the SAT engine would enqueue
+            std::string ded = "[";
+            int nd = 0;
+            if (r == TRes::SAT) {
+                while (nd < 64) {
+                    setTickWatch(true);
+                    Lit d = th.getDeduction();
+                    setTickWatch(false);
+                    if (d == lit_Undef) break;
+                    int ai = var(d) < nv ? atomIndexOfVar[var(d)] : -1;
+                    if (nd) ded += ",";
+                    ded += std::to_string(ai < 0 ? 0 : (sign(d) ? -(ai + 1) : (ai + 1)));
+                    ++nd;
+                }
+            }
+            ded += "]";
+            logRaw("{\"ev\":\"t-step\",\"i\":" + std::to_string(step) + ",\"op\":\"" + (complete ? "check-complete" : "check") + "\",\"res\":\"" +
+                   (r == TRes::SAT ? "SAT" : r == TRes::UNKNOWN ? "UNKNOWN" : "UNDEF") + "\",\"splits\":" + std::to_string(nsplits) + ",\"deduced\":" + ded +
+                   ",\"trail\":" + trailJson() + "}");
+        } else if (kind == "backtrack") {
+            int n = (int)op[1].asInt();
+            if (n > trail.size()) n = trail.size();
+            if (n <= 0) continue;
+            popTo(trail.size() - n);
+            logRaw("{\"ev\":\"t-step\",\"i\":" + std::to_string(step) + ",\"op\":\"backtrack\",\"res\":\"OK\",\"trail\":" + trailJson() + "}");
+        }
+    }
+    } catch (std::exception const & e) {
+        // e.g. std::overflow_error from the difference-logic solver: MainSolver::check turns it into "unknown"
+        setTickWatch(false);
+        logRaw(std::string("{\"ev\":\"t-exception\",\"i\":") + std::to_string(step) + ",\"what\":" + jsonEscape(std::string(typeid(e).name()) + ": " + e.what()) + "}");
+    }
+    monitorsSummary();
+    logRaw("{\"ev\":\"run-end\",\"ticks\":" + std::to_string(task.ticks) + "}");
+    return 0;
 }
+
+} // namespace osim
